@@ -34,7 +34,10 @@ FIXED = [
  ("C18", "C18.socket:not_applied", "fix: control socket keeps a partially",
   "same defect: a set_* notification whose head was dropped is not applied on the socket."),
 ]
-KNOWN = []
+KNOWN = [
+ ("C08", "C08.liveness:handshake_slot_held_by_uplinks_losing_reg2",
+  "when an uplink keeps hearing the receiver's REG_NGP but never its REG2 (lost handshake replies on that path only), it takes the single outstanding-REG1 slot again every retry round - the fastest path answers first, and a link that holds the slot re-arms it with its own REG1 re-send - while every other uplink defers ('another uplink is awaiting REG2') and, sending nothing, is never offered the slot: healthy uplinks whose paths deliver and whom the receiver would accept stay down indefinitely. Replay (engine L): 3 uplinks, conn_timeout 1000 ms, REG2 replies lost on the lowest-latency uplink only, receiver restart at 12.4 s; the other two uplinks are still down 32 s after the last fault. Not repaired: a first-cut fail-over (skip the uplink whose REG1 just went unanswered) fixes the one-bad-link history but not histories with several such links; a complete repair changes the handshake scheduling (deferred links must keep probing, the slot must rotate) and is not a small patch. Identified by: C08.liveness in histories whose plan leaves REG2-reply loss switched on for some path."),
+]
 
 def main():
     out = {"_comment": "Read-only at run time. status=known: the check prints KNOWN-FINDING and exits 0 for exactly this signature; status=fixed: suppresses nothing (the defect was repaired by the named fix: commit in /repo and the check reports it again if it returns).",
